@@ -1,6 +1,7 @@
 //! cvh - conformance harness binding the TLA+ specifications under /verif/spec to the real
 //! cadence code (built from /repo's working tree with --cfg cadence_verif).
 mod common;
+mod holder;
 mod queue;
 mod writer;
 
@@ -15,6 +16,9 @@ fn main() {
     match argv[1].as_str() {
         "writer-replay" => writer::replay(&args),
         "writer-drive" => writer::drive(&args),
+        "holder-probe" => holder::probe(&args),
+        "holder-replay" => holder::replay(&args),
+        "holder-stress" => holder::stress(&args),
         "queue-stress" => queue::stress(&args),
         "queue-replay" => queue::replay(&args),
         other => {
